@@ -63,6 +63,59 @@ spec fn defs_ref_upto(a: Seq<Expr>, m: Map<Ustr, NontermDefn>, keys: Seq<Ustr>, 
     exists|q: int| 0 <= q < idx && q < keys.len() && key_refs(a, m, #[trigger] keys[q], n)
 }
 
+spec fn seen_entry(s: Seq<(&Ustr, &NontermDefn)>, idx: int, n: Ustr) -> bool {
+    exists|q: int| 0 <= q < idx && q < s.len() && *(#[trigger] s[q]).0 == n
+}
+
+proof fn lemma_seen_entry_step(s: Seq<(&Ustr, &NontermDefn)>, idx: int, n: Ustr)
+    requires 0 <= idx < s.len()
+    ensures seen_entry(s, idx + 1, n) == (seen_entry(s, idx, n) || *s[idx].0 == n)
+{
+    if seen_entry(s, idx + 1, n) {
+        let q = choose|q: int| 0 <= q < idx + 1 && q < s.len() && *(#[trigger] s[q]).0 == n;
+        if q < idx { assert(seen_entry(s, idx, n)); }
+    }
+    if seen_entry(s, idx, n) {
+        let q = choose|q: int| 0 <= q < idx && q < s.len() && *(#[trigger] s[q]).0 == n;
+        assert(seen_entry(s, idx + 1, n));
+    }
+    if *s[idx].0 == n { assert(seen_entry(s, idx + 1, n)); }
+}
+
+proof fn lemma_defs_ref_upto_step(a: Seq<Expr>, m: Map<Ustr, NontermDefn>, keys: Seq<Ustr>, idx: int, n: Ustr)
+    requires 0 <= idx < keys.len()
+    ensures defs_ref_upto(a, m, keys, idx + 1, n) == (defs_ref_upto(a, m, keys, idx, n) || key_refs(a, m, keys[idx], n))
+{
+    if defs_ref_upto(a, m, keys, idx + 1, n) {
+        let q = choose|q: int| 0 <= q < idx + 1 && q < keys.len() && key_refs(a, m, #[trigger] keys[q], n);
+        if q < idx { assert(defs_ref_upto(a, m, keys, idx, n)); }
+    }
+    if defs_ref_upto(a, m, keys, idx, n) {
+        let q = choose|q: int| 0 <= q < idx && q < keys.len() && key_refs(a, m, #[trigger] keys[q], n);
+        assert(defs_ref_upto(a, m, keys, idx + 1, n));
+    }
+    if key_refs(a, m, keys[idx], n) { assert(defs_ref_upto(a, m, keys, idx + 1, n)); }
+}
+
+spec fn seen_unused_spec(s: Seq<(&Ustr, &UserSpec)>, idx: int, n: Ustr) -> bool {
+    exists|q: int| 0 <= q < idx && q < s.len() && *(#[trigger] s[q]).0 == n && !s[q].1.used
+}
+
+proof fn lemma_seen_unused_spec_step(s: Seq<(&Ustr, &UserSpec)>, idx: int, n: Ustr)
+    requires 0 <= idx < s.len()
+    ensures seen_unused_spec(s, idx + 1, n) == (seen_unused_spec(s, idx, n) || (*s[idx].0 == n && !s[idx].1.used))
+{
+    if seen_unused_spec(s, idx + 1, n) {
+        let q = choose|q: int| 0 <= q < idx + 1 && q < s.len() && *(#[trigger] s[q]).0 == n && !s[q].1.used;
+        if q < idx { assert(seen_unused_spec(s, idx, n)); }
+    }
+    if seen_unused_spec(s, idx, n) {
+        let q = choose|q: int| 0 <= q < idx && q < s.len() && *(#[trigger] s[q]).0 == n && !s[q].1.used;
+        assert(seen_unused_spec(s, idx + 1, n));
+    }
+    if *s[idx].0 == n && !s[idx].1.used { assert(seen_unused_spec(s, idx + 1, n)); }
+}
+
 /// C15, in terms of the input: a statement (call variant or plain definition) refers to n
 spec fn call_variant_refs(g: Grammar, upto: int, n: Ustr) -> bool {
     exists|i: int| 0 <= i < upto && i < call_variant_stmts(g.statements@).len() && has_ref(g.arena@, (#[trigger] call_variant_stmts(g.statements@)[i]).2.0 as int, n)
